@@ -45,11 +45,26 @@ Section Codegen.
     | e :: r => do (c, n1) <- cge e n; do (cr, n2) <- cargs r (k + 1) n1; Some (c ++ [LDBM 1; STAI k] ++ cr, n2)
     end.
 
+  (* the right-hand side of an assignment / the value of a return: an expression of the fragment, or a call of a
+     function with call-free actuals as the WHOLE expression (genFuncCall: the actuals go to the outgoing words
+     sp+2.., branch and link, the result is read from the outgoing word sp+1) *)
+  Definition cgx (e : expr) (n : label) : option (list instr * label) :=
+    match e with
+    | ECall g args =>
+        do pi <- pinfo g;
+        if pf_isfunc pi then
+          if Z.of_nat (List.length args) + 2 <=? og then
+            do (c, n1) <- cargs args 2 n; Some (c ++ [LDAP n1; BR (pf_entry pi); LABEL n1] ++ [LDAM 1; LDAI 1], n1 + 1)
+          else None
+        else None
+    | _ => cge e n
+    end.
+
   Fixpoint cs (s : stmt) (n : label) {struct s} : option (list instr * label) :=
     match s with
     | SSkip => Some ([], n)
     | SStop => Some ([LDBM 1; LDAC 0; STAI 2; SVC], n)
-    | SReturn e => do (c, n1) <- cge e n; Some (c ++ [BR exitl], n1)
+    | SReturn e => do (c, n1) <- cgx e n; Some (c ++ [BR exitl], n1)
     | SIf c t e =>
         if is_skip t && is_skip e then (if pure c then Some ([], n) else None)
         else if is_skip e then
@@ -70,7 +85,7 @@ Section Codegen.
            | [] => Some ([], n)
            | x :: r => do (c1, n1) <- cs x n; do (c2, n2) <- go r n1; Some (c1 ++ c2, n2)
            end) ss n
-    | SAssign x e => do l <- venv x; do (c, n1) <- cge e n; Some (c ++ store_var l, n1)
+    | SAssign x e => do l <- venv x; do (c, n1) <- cgx e n; Some (c ++ store_var l, n1)
     | SCall p args =>
         (* genProcCall: the actuals, then branch and link *)
         do pi <- pinfo p;
@@ -160,10 +175,13 @@ Section Correct.
   Hypothesis Hinj : forall x y lx ly, venv x = Some lx -> venv y = Some ly -> x <> y -> addr_of lx <> addr_of ly.
   (* the procedures that can be called: their entry labels lie in the address space, and no constant bears their name *)
   Hypothesis Hentry : forall p pi, pinfo p = Some pi -> 0 <= lab (pf_entry pi) < W.
-  Hypothesis Hcallt : forall p pi st n, pinfo p = Some pi -> call_target ge p st <> TSys n.
+  Hypothesis Hcallt : forall p pi, pinfo p = Some pi -> assoc p (g_vals ge) = None.
 
+  (* no local constant of the running frame bears the name of a callable procedure (such a name would denote a
+     system call: XSem.call_target) *)
+  Definition novals (st : state) : Prop := forall p pi, pinfo p = Some pi -> assoc p (f_vals (top st)) = None.
   Definition Rel (st : state) (m : WMap.t) : Prop :=
-    Cm m /\ rd m 1 = sp /\ vars_ok venv ge sp m st /\ stk st <> [] /\ Dq (f_depth (top st)).
+    Cm m /\ rd m 1 = sp /\ vars_ok venv ge sp m st /\ (stk st <> [] /\ novals st) /\ Dq (f_depth (top st)).
 
   (* what a statement adds to the spec state besides variables: outputs; nothing else *)
   Definition post (st st' : state) (outs : list (Z * Z)) : Prop :=
@@ -209,7 +227,7 @@ Section Correct.
   Lemma Rel_same st st' m : same_store st st' -> Rel st m -> Rel st' m.
   Proof.
     intros Hs (A & B & D & E & Q). split; [exact A|]. split; [exact B|]. split; [eapply vars_ok_same; eassumption|].
-    destruct Hs as (_ & Hk & _). unfold top. rewrite Hk. exact (conj E Q).
+    destruct Hs as (_ & Hk & _). unfold novals, top in *. rewrite Hk. exact (conj E Q).
   Qed.
 
   (* changes confined to temporaries and the outgoing area keep the relation *)
@@ -271,7 +289,7 @@ Section Correct.
     rd m' (addr_of l) = n mod W -> (forall a, 0 <= a -> a <> addr_of l -> rd m' a = rd m a) ->
     exists st', assign ge x n st = Ret Normal st' /\ Rel st' m' /\ post st st' [].
   Proof.
-    intros Hx Hn (A & B & [Hg Hf] & E & Q) Hw Hm.
+    intros Hx Hn (A & B & [Hg Hf] & [E NV] & Q) Hw Hm.
     destruct (Hvar x l Hx) as (Hin & Hns & HnP & Hn1).
     destruct (stk st) as [|fr rest] eqn:Es; [exfalso; apply E; reflexivity|].
     assert (Htop : top st = fr) by (unfold top; rewrite Es; reflexivity).
@@ -283,7 +301,7 @@ Section Correct.
     - (* a global *)
       destruct (Hg x ga Hx) as (N1 & N2 & N3 & v & Hv & _). rewrite Htop in N1, N2. rewrite N1, N2, N3, Hv.
       eexists. split; [reflexivity|]. split; [|unfold post, top; cbn; rewrite ?Es; repeat split].
-      split; [exact HC'|]. split; [exact H1'|]. split; [|split; [cbn; rewrite Es; discriminate | unfold top in *; cbn; rewrite Es in *; exact Q]].
+      split; [exact HC'|]. split; [exact H1'|]. split; [|split; [split; [cbn; rewrite Es; discriminate | unfold novals, top in *; cbn; rewrite Es in *; exact NV] | unfold top in *; cbn; rewrite Es in *; exact Q]].
       split.
       + intros y a Hy. destruct (Hg y a Hy) as (M1 & M2 & M3 & w & Hw' & Hok).
         unfold top in *. cbn. rewrite Es in *. repeat split; try assumption.
@@ -308,7 +326,7 @@ Section Correct.
       { destruct Hvok as [->|(z & -> & _)]; eexists; split; reflexivity. }
       destruct Hupd as (st' & Hst' & ->). exists (set_stk st ({| f_vars := update x (Vint n) (f_vars fr); f_vals := f_vals fr; f_depth := f_depth fr |} :: rest)).
       split; [exact Hst'|]. split; [|unfold post, top; cbn; rewrite ?Es; repeat split].
-      split; [exact HC'|]. split; [exact H1'|]. split; [|split; [cbn; discriminate | unfold top in *; cbn; rewrite Es in Q; exact Q]].
+      split; [exact HC'|]. split; [exact H1'|]. split; [|split; [split; [cbn; discriminate | unfold novals, top in *; cbn; rewrite Es in NV; exact NV] | unfold top in *; cbn; rewrite Es in Q; exact Q]].
       split.
       + intros y a Hy. destruct (Hg y a Hy) as (M1 & M2 & M3 & w & Hw' & Hok).
         assert (Hne : x <> y) by (intros <-; rewrite Hx in Hy; discriminate).
@@ -373,6 +391,7 @@ Section Correct.
 
   Notation cs' := (cs pinfo venv pool size nslots off0 og exitl).
   Notation cge' := (cge venv pool size nslots off0).
+  Notation cgx' := (cgx pinfo venv pool size nslots off0 og).
 
   Lemma cge_pure e n r : cge' e n = Some r -> pure e = true.
   Proof. unfold cge. intros H. eapply cg_pure. exact H. Qed.
@@ -460,7 +479,7 @@ Section Correct.
   Proof.
     intros Hg Hk (A & B & [D1 D2] & E & Q). split; [exact A|]. split; [exact B|]. split.
     - unfold vars_ok, top in *. rewrite Hg, Hk. split; assumption.
-    - unfold top. rewrite Hk. exact (conj E Q).
+    - unfold novals, top in *. rewrite Hk. exact (conj E Q).
   Qed.
 
   Lemma Rel_wr_scratch st m a v : scratch a -> 0 <= a -> Rel st m -> Rel st (wr m a v).
@@ -487,20 +506,43 @@ Section Correct.
       exists z, v = Vint z /\ in_int z = true /\ rd m (sp + k + Z.of_nat i) = z mod W.
 
   (* what the callee must do, seen from the caller: entered at its entry label with the return address in areg and
-     the actuals stored, it comes back to that address with the caller's relation restored (for the state XSem's
-     invoke yields), having changed only what the caller regards as scratch (outgoing area, free stack) or the
-     words of variables in scope *)
+     the actuals stored (from sp+1 for a procedure, from sp+2 for a function), it comes back to that address with the
+     caller's relation restored (for the state XSem's invoke yields), having changed only what the caller regards as
+     scratch (outgoing area, free stack) or the words of variables in scope; a function's result is in the outgoing
+     word sp+1 *)
+  Definition koff (pi : pframe) : Z := if pf_isfunc pi then 2 else 1.
+  Definition ret_ok (isf : bool) (st : state) (r : res value) (m : WMap.t) (pos nxt a b : Z) (inp : inputs) : Prop :=
+    match r with
+    | Ret v st' => exists outs a' b' m',
+        runs inp (mk pos a b 0 m) (map wr_ev outs) inp (mk nxt a' b' 0 m') /\
+        Rel st' m' /\ post st st' outs /\ frame_only m m' /\
+        (isf = true -> exists z, v = Vint z /\ in_int z = true /\ rd m' (sp + 1) = z mod W)
+    | Halt c st' => exists outs, exits inp (mk pos a b 0 m) (map wr_ev outs) inp (c mod W) /\ hpost st st' outs
+    | Fail _ => True
+    end.
   Definition call_spec (f : nat) : Prop :=
     forall p pi vs st m link b inp,
-      pinfo p = Some pi -> pf_isfunc pi = false ->
-      Rel st m -> args_stored vs 1 m -> Z.of_nat (List.length vs) + 1 <= og -> 0 <= link < W ->
-      match invoke (exec f ge) ge false p vs st with
-      | Ret _ st' => exists outs a' b' m',
-          runs inp (mk (lab (pf_entry pi)) link b 0 m) (map wr_ev outs) inp (mk link a' b' 0 m') /\
-          Rel st' m' /\ post st st' outs /\ frame_only m m'
-      | Halt c st' => exists outs, exits inp (mk (lab (pf_entry pi)) link b 0 m) (map wr_ev outs) inp (c mod W) /\ hpost st st' outs
-      | Fail _ => True
-      end.
+      pinfo p = Some pi ->
+      Rel st m -> args_stored vs (koff pi) m -> Z.of_nat (List.length vs) + koff pi <= og -> 0 <= link < W ->
+      ret_ok (pf_isfunc pi) st (invoke (exec f ge) ge (pf_isfunc pi) p vs st) m (lab (pf_entry pi)) link link b inp.
+
+  Lemma ret_ok_start isf st st0 r m pos nxt a b inp : same_store st st0 ->
+    ret_ok isf st0 r m pos nxt a b inp -> ret_ok isf st r m pos nxt a b inp.
+  Proof.
+    intros Hs. destruct r as [v st'|c st'|u]; cbn [ret_ok]; trivial.
+    - intros (o & a' & b' & m' & H1 & H2 & H3 & H4). exists o, a', b', m'. exact (conj H1 (conj H2 (conj (post_start _ _ _ _ Hs H3) H4))).
+    - intros (o & H1 & H2). exists o. split; [exact H1|]. destruct Hs as (_ & _ & Ha & Ho & Hi & Hn).
+      destruct H2 as (G1 & G2 & G3 & G4). unfold hpost. repeat split; congruence.
+  Qed.
+  Lemma ret_ok_after_taus isf st r m m1 pos p1 nxt a b a1 b1 inp :
+    taus inp (mk pos a b 0 m) (mk p1 a1 b1 0 m1) -> frame_only m m1 ->
+    ret_ok isf st r m1 p1 nxt a1 b1 inp -> ret_ok isf st r m pos nxt a b inp.
+  Proof.
+    intros Ht Hf. destruct r as [v st'|c st'|u]; cbn [ret_ok]; trivial.
+    - intros (o & a' & b' & m' & H1 & H2 & H3 & H4 & H5). exists o, a', b', m'.
+      split; [eapply taus_runs; eassumption|]. split; [exact H2|]. split; [exact H3|]. split; [exact (frame_only_trans _ _ _ Hf H4) | exact H5].
+    - intros (o & H1 & H2). exists o. split; [eapply taus_exits; eassumption | exact H2].
+  Qed.
 
   Lemma cargs_pure : forall args k n r, cargs' args k n = Some r -> forall e, In e args -> pure e = true.
   Proof.
@@ -562,6 +604,106 @@ Section Correct.
              rewrite <- Hrd. f_equal. lia.
   Qed.
 
+  (* ---- calls: the actuals, branch and link, and what the callee's specification gives at the link address *)
+  Lemma call_is_proc g pi st0 m : pinfo g = Some pi -> Rel st0 m -> call_target ge g st0 = TProc \/ call_target ge g st0 = TBad.
+  Proof.
+    intros Epi (_ & _ & _ & (_ & Hnv) & _). unfold call_target. rewrite (Hnv g pi Epi), (Hcallt g pi Epi).
+    destruct (assoc g (f_vars (top st0))); [right | left]; reflexivity.
+  Qed.
+
+  Lemma run_call F : (forall f', (f' < F)%nat -> call_spec f') ->
+    forall g pi args n c n1 f0 st0 m pos nxt a b inp, (f0 < F)%nat ->
+    pinfo g = Some pi -> Z.of_nat (List.length args) + koff pi <= og ->
+    cargs' args (koff pi) n = Some (c, n1) -> Rel st0 m ->
+    code_at Cm lab pos (c ++ [LDAP n1; BR (pf_entry pi); LABEL n1]) nxt -> 0 <= pos -> nxt < W ->
+    ret_ok (pf_isfunc pi) st0
+      (bind (operands (evals f0 ge) args st0) (fun vs s1 => invoke (exec f0 ge) ge (pf_isfunc pi) g vs s1)) m pos nxt a b inp.
+  Proof.
+    intros Hcall g pi args n c n1 f0 st0 m pos nxt a b inp Hf Epi Eog Ec HR0 Hc Hp Hn.
+    assert (Hk0 : 1 <= koff pi <= 2) by (unfold koff; destruct (pf_isfunc pi); lia).
+    apply code_at_app in Hc. destruct Hc as (p1 & Hc1 & Hc). one_instr Hc p2 Hi2. one_instr Hc p3 Hi3. one_instr Hc p4 Hi4. subst p4.
+    cbn [instr_at] in Hi4. destruct Hi4 as [E4 Ll]. subst p3.
+    pose proof (code_at_le _ _ _ _ _ Hc1) as L1. pose proof (instr_at_le _ _ _ _ _ Hi2) as L2. pose proof (instr_at_le _ _ _ _ _ Hi3) as L3.
+    destruct (operands (evals f0 ge) args st0) as [vs s1|hc hs|u] eqn:Eo; cbn [bind rcase]; [| |exact I].
+    2:{ exfalso. unfold operands in Eo. apply bind_halt in Eo. destruct Eo as [Eo|(L & s1 & _ & Eo)].
+        - refine (evals_no_halt ge args _ f0 st0 hc hs Eo). intros e0 Hin. exact (pure_no_halt ge e0 (cargs_pure args _ n _ Ec e0 Hin)).
+        - destruct (conflicts (map snd L)); discriminate. }
+    apply operands_ret in Eo. destruct Eo as (L & Eo & ->).
+    destruct (run_args args (koff pi) n c n1 f0 st0 L s1 m Ec Eo HR0 ltac:(lia) ltac:(lia)) as [Hss Hrun].
+    destruct (Hrun pos p1 a b inp Hc1 Hp ltac:(lia)) as (a1 & b1 & m1 & T1 & HR1 & Hk1 & Hst).
+    pose proof (Rel_same _ _ _ Hss HR1) as HR1'.
+    assert (Hlen : List.length (map fst L) = List.length args).
+    { clear - Eo. revert f0 st0 L s1 Eo. induction args as [|e r IHa]; intros f0 st0 L s1 Eo.
+      - destruct (evals_nil _ _ _ _ _ Eo) as [-> _]. reflexivity.
+      - destruct (evals_cons _ _ _ _ _ _ _ Eo) as (f1 & v & sl & L' & -> & _ & Er & ->). cbn [map List.length]. f_equal. eapply IHa. exact Er. }
+    pose proof (exec_ldap Cm lab m1 p1 p2 n1 a1 b1 inp Hi2 (proj1 HR1) ltac:(lia) ltac:(lia)) as T2. rewrite Ll in T2.
+    pose proof (exec_br Cm lab m1 p2 nxt (pf_entry pi) nxt b1 inp Hi3 (proj1 HR1) Hn (Hentry g pi Epi)) as T3.
+    assert (Hf1 : frame_only m m1).
+    { intros x Hx Hns _. apply Hk1; [exact Hx | intros Ht; apply Hns; left; exact Ht|].
+      intros Hr. apply Hns. right. left. unfold O. lia. }
+    pose proof (Hcall f0 Hf g pi (map fst L) s1 m1 nxt b1 inp Epi HR1' Hst ltac:(rewrite Hlen; lia) ltac:(lia)) as Hcs1.
+    apply (ret_ok_start _ st0 s1); [exact Hss|].
+    eapply ret_ok_after_taus; [eapply (taus_trans inp _ _ _ T1 (taus_trans inp _ _ _ T2 T3)) | exact Hf1 | exact Hcs1].
+  Qed.
+
+  Lemma cgx_cases e n : (exists g args, e = ECall g args) \/ cgx' e n = cge' e n.
+  Proof. destruct e; try (right; reflexivity). left. eexists. eexists. reflexivity. Qed.
+
+  (* the value of a right-hand side: what XSem's eval answers, the code does, leaving the value in areg *)
+  Definition rhs_ok (st : state) (r : res value) (m : WMap.t) (pos nxt a b : Z) (inp : inputs) : Prop :=
+    match r with
+    | Ret v s => exists outs z b' m', v = Vint z /\ in_int z = true /\
+        runs inp (mk pos a b 0 m) (map wr_ev outs) inp (mk nxt (z mod W) b' 0 m') /\ Rel s m' /\ post st s outs /\ frame_only m m'
+    | Halt c0 s => exists outs, exits inp (mk pos a b 0 m) (map wr_ev outs) inp (c0 mod W) /\ hpost st s outs
+    | Fail _ => True
+    end.
+
+  Lemma run_cgx F : (forall f', (f' < F)%nat -> call_spec f') ->
+    forall e n c n1 f st m pos nxt a b inp, (f <= F)%nat ->
+    cgx' e n = Some (c, n1) -> Rel st m -> code_at Cm lab pos c nxt -> 0 <= pos -> nxt < W ->
+    rhs_ok st (eval f ge e st) m pos nxt a b inp.
+  Proof.
+    intros Hcall e n c n1 f st m pos nxt a b inp Hf Hcg HR Hc Hp Hn.
+    destruct (cgx_cases e n) as [(g & args & ->)|Heq].
+    - (* a function call *)
+      cbn [cgx] in Hcg. destruct (pinfo g) as [pi|] eqn:Epi; [|discriminate]. cbn [obind] in Hcg.
+      destruct (pf_isfunc pi) eqn:Eisf; [|discriminate].
+      destruct (Z.of_nat (List.length args) + 2 <=? og) eqn:Eog; [|discriminate]. apply Z.leb_le in Eog.
+      assert (Hko : koff pi = 2) by (unfold koff; rewrite Eisf; reflexivity).
+      destruct (cargs' args 2 n) as [[cc n2]|] eqn:Ec; [|discriminate]. cbn [obind] in Hcg. inversion Hcg; subst c n1.
+      assert (Hsplit : exists p1, code_at Cm lab pos (cc ++ [LDAP n2; BR (pf_entry pi); LABEL n2]) p1 /\ code_at Cm lab p1 [LDAM 1; LDAI 1] nxt).
+      { apply (code_at_app Cm lab (cc ++ [LDAP n2; BR (pf_entry pi); LABEL n2]) [LDAM 1; LDAI 1]). rewrite <- app_assoc. exact Hc. }
+      clear Hc. destruct Hsplit as (p1 & Hc1 & Hc2).
+      one_instr Hc2 p2 Hi2. one_instr Hc2 p3 Hi3. subst p3.
+      pose proof (code_at_le _ _ _ _ _ Hc1) as L1. pose proof (instr_at_le _ _ _ _ _ Hi2) as L2. pose proof (instr_at_le _ _ _ _ _ Hi3) as L3.
+      destruct f as [|f1]; [exact I|].
+      change (eval (S f1) ge (ECall g args) st) with (eval_body (eval f1 ge) (evals f1 ge) (exec f1 ge) ge (ECall g args) st).
+      cbn [eval_body]. destruct (call_is_proc g pi st m Epi HR) as [-> | ->]; [|exact I].
+      rewrite <- Hko in Ec, Eog.
+      pose proof (run_call F Hcall g pi args n cc n2 f1 st m pos p1 a b inp ltac:(lia) Epi ltac:(lia) Ec HR Hc1 Hp ltac:(lia)) as R.
+      rewrite Eisf in R.
+      destruct (bind (operands (evals f1 ge) args st) (fun vs s1 => invoke (exec f1 ge) ge true g vs s1)) as [v s|hc hs|u];
+        cbn [ret_ok rhs_ok] in *; [| exact R | exact I].
+      destruct R as (outs & a1 & b1 & m1 & R1 & HR1 & P1 & F1 & Hv). destruct (Hv eq_refl) as (z & -> & Hz & Hrd).
+      pose proof HR1 as (HC1 & H11 & _).
+      pose proof (exec_instr Cm lab m1 p1 p2 (LDAM 1) a1 b1 inp eq_refl Hi2 HC1 eq_refl ltac:(lia)) as T2.
+      cbn [sem fst snd] in T2. rewrite H11 in T2.
+      destruct (O_facts 1 ltac:(lia)) as (Oin1 & _).
+      assert (R3 : readable (LDAI 1) sp b1) by (cbn [readable]; rewrite (in_mem_wrap _ Oin1); exact Oin1).
+      pose proof (exec_instr Cm lab m1 p2 nxt (LDAI 1) sp b1 inp eq_refl Hi3 HC1 R3 Hn) as T3.
+      cbn [sem fst snd] in T3. rewrite (in_mem_wrap _ Oin1), Hrd in T3.
+      exists outs, z, b1, m1. split; [reflexivity|]. split; [exact Hz|]. split; [|exact (conj HR1 (conj P1 F1))].
+      eapply runs_taus; [exact R1|]. eapply taus_trans; [exact T2 | exact T3].
+    - (* an expression of the fragment *)
+      rewrite Heq in Hcg.
+      destruct (eval f ge e st) as [v s1|hc hs|u] eqn:Ee; cbn [rhs_ok]; [| |exact I].
+      2:{ exfalso. exact (pure_no_halt ge e (cge_pure _ _ _ Hcg) _ _ _ _ Ee). }
+      destruct (run_expr e n c n1 f st v s1 m Hcg Ee HR) as [Hss (z & -> & Hz & Hrun)].
+      destruct (Hrun pos nxt a b inp Hc Hp Hn) as (b1 & m1 & T1 & HR1 & Hk1).
+      exists [], z, b1, m1. split; [reflexivity|]. split; [exact Hz|]. split; [exact T1|].
+      split; [eapply Rel_same; eassumption|]. split; [apply post_same; exact Hss | apply frame_only_T; exact Hk1].
+  Qed.
+
   (* ---- the theorem *)
   Theorem stmt_correct_calls : forall f, (forall f', (f' < f)%nat -> call_spec f') -> stmt_ok f.
   Proof.
@@ -599,19 +741,15 @@ Section Correct.
       exists []. split; [|apply post_hpost, post_refl]. cbn [map]. change (0 mod W) with 0.
       eapply taus_exits; [exact T1|]. eapply taus_exits; [exact T2|]. eapply taus_exits; [exact T3|]. exact T4.
     - (* return e *)
-      destruct (cge' e n) as [[c n1]|] eqn:Ec; [|discriminate]. cbn [obind] in Hcs. inversion Hcs; subst code n'.
+      destruct (cgx' e n) as [[c n1]|] eqn:Ec; [|discriminate]. cbn [obind] in Hcs. inversion Hcs; subst code n'.
       apply code_at_app in Hc. destruct Hc as (p1 & Hc1 & Hc2). one_instr Hc2 p2 Hi2. subst p2.
       pose proof (code_at_le _ _ _ _ _ Hc1) as L1. pose proof (instr_at_le _ _ _ _ _ Hi2) as L2.
-      destruct (eval f0 ge e st0) as [v s1|hc hs|u] eqn:Ee; cbn [bind rcase]; [| |exact I].
-      2:{ exfalso. exact (pure_no_halt ge e (cge_pure _ _ _ Ec) _ _ _ _ Ee). }
-      destruct (run_expr e n c n1 f0 st0 v s1 m Ec Ee HR0) as [Hss (z & -> & Hz & Hrun)].
-      destruct (Hrun pos p1 a b inp Hc1 Hp ltac:(lia)) as (b1 & m1 & T1 & HR1 & Hk1).
-      exists [], z, b1, m1. split; [reflexivity|]. split; [exact Hz|]. split; [|split; [|split]].
-      + cbn [map]. eapply taus_trans; [exact T1|]. destruct HR1 as (HC1 & _).
-        exact (exec_br Cm lab m1 p1 nxt exitl (z mod W) b1 inp Hi2 HC1 Hn Hex).
-      + eapply Rel_same; eassumption.
-      + apply post_same. exact Hss.
-      + apply frame_only_T. exact Hk1.
+      pose proof (run_cgx (S f0) Hcall e n c n1 f0 st0 m pos p1 a b inp ltac:(lia) Ec HR0 Hc1 Hp ltac:(lia)) as R.
+      destruct (eval f0 ge e st0) as [v s1|hc hs|u]; cbn [bind rcase rhs_ok result_ok] in *; [| exact R | exact I].
+      destruct R as (outs & z & b1 & m1 & -> & Hz & R1 & HR1 & P1 & F1).
+      exists outs, z, b1, m1. split; [reflexivity|]. split; [exact Hz|]. split; [|exact (conj HR1 (conj P1 F1))].
+      eapply runs_taus; [exact R1|]. destruct HR1 as (HC1 & _).
+      exact (exec_br Cm lab m1 p1 nxt exitl (z mod W) b1 inp Hi2 HC1 Hn Hex).
     - (* if *)
       destruct (is_skip t && is_skip e) eqn:Ebb.
       + (* both branches are skip: no code *)
@@ -747,58 +885,37 @@ Section Correct.
       exact (seq_ok (S f0) IH ss f0 ltac:(lia) n code n' st0 Hcs0 m pos nxt a b inp HR0 Hc Hp Hn Hex).
     - (* assignment *)
       destruct (venv x) as [l|] eqn:Ex; [|discriminate]. cbn [obind] in Hcs.
-      destruct (cge' e n) as [[c n1]|] eqn:Ec; [|discriminate]. cbn [obind] in Hcs. inversion Hcs; subst code n'.
+      destruct (cgx' e n) as [[c n1]|] eqn:Ec; [|discriminate]. cbn [obind] in Hcs. inversion Hcs; subst code n'.
       apply code_at_app in Hc. destruct Hc as (p1 & Hc1 & Hc2).
       pose proof (code_at_le _ _ _ _ _ Hc1) as L1. pose proof (code_at_le _ _ _ _ _ Hc2) as L2.
-      destruct (eval f0 ge e st0) as [v s1|hc hs|u] eqn:Ee; cbn [bind rcase]; [| |exact I].
-      2:{ exfalso. exact (pure_no_halt ge e (cge_pure _ _ _ Ec) _ _ _ _ Ee). }
-      destruct (run_expr e n c n1 f0 st0 v s1 m Ec Ee HR0) as [Hss (z & -> & Hz & Hrun)].
-      destruct (Hrun pos p1 a b inp Hc1 Hp ltac:(lia)) as (b1 & m1 & T1 & HR1 & Hk1).
-      pose proof (Rel_same _ _ _ Hss HR1) as HR1'.
-      destruct HR1 as (HC1 & H11 & _).
+      pose proof (run_cgx (S f0) Hcall e n c n1 f0 st0 m pos p1 a b inp ltac:(lia) Ec HR0 Hc1 Hp ltac:(lia)) as R.
+      destruct (eval f0 ge e st0) as [v s1|hc hs|u]; cbn [bind rcase rhs_ok result_ok] in *; [| exact R | exact I].
+      destruct R as (outs & z & b1 & m1 & -> & Hz & R1 & HR1' & P1 & F1).
+      pose proof HR1' as (HC1 & H11 & _).
       destruct (run_store_var l x m1 p1 nxt (z mod W) b1 inp Ex Hc2 HC1 H11 Hn) as (b2 & T2).
       destruct (Hvar x l Ex) as (Hin & _).
       destruct (assign_ok x l z s1 m1 (wr m1 (addr_of l) (z mod W)) Ex Hz HR1') as (st' & Has & HR' & Hpost).
       { apply rd_wr_same. }
       { intros y Hy Hne. apply rd_wr_other; [exact (proj1 (in_mem_range _ Hin)) | exact Hy | intros Heq; exact (Hne (eq_sym Heq))]. }
       cbn [int_of]. rewrite Has. cbn [result_ok].
-      exists [], (z mod W), b2, (wr m1 (addr_of l) (z mod W)). split; [|split; [|split]].
-      + cbn [map]. eapply taus_trans; eassumption.
+      exists outs, (z mod W), b2, (wr m1 (addr_of l) (z mod W)). split; [|split; [|split]].
+      + eapply runs_taus; eassumption.
       + exact HR'.
-      + eapply post_start; [exact Hss | exact Hpost].
-      + eapply frame_only_trans; [apply frame_only_T; exact Hk1 | eapply frame_only_wr_var; exact Ex].
+      + pose proof (post_trans _ _ _ _ _ P1 Hpost) as Q. rewrite app_nil_r in Q. exact Q.
+      + eapply frame_only_trans; [exact F1 | eapply frame_only_wr_var; exact Ex].
     - (* procedure call:  actuals; LDAP link; BR entry; link: *)
       destruct (pinfo g) as [pi|] eqn:Epi; [|discriminate]. cbn [obind] in Hcs.
       destruct (pf_isfunc pi) eqn:Eisf; [discriminate|].
       destruct (Z.of_nat (List.length args) + 1 <=? og) eqn:Eog; [|discriminate]. apply Z.leb_le in Eog.
+      assert (Hko : koff pi = 1) by (unfold koff; rewrite Eisf; reflexivity).
       destruct (cargs' args 1 n) as [[c n1]|] eqn:Ec; [|discriminate]. cbn [obind] in Hcs. inversion Hcs; subst code n'.
-      apply code_at_app in Hc. destruct Hc as (p1 & Hc1 & Hc). one_instr Hc p2 Hi2. one_instr Hc p3 Hi3. one_instr Hc p4 Hi4. subst p4.
-      cbn [instr_at] in Hi4. destruct Hi4 as [E4 Ll]. subst p3.
-      pose proof (code_at_le _ _ _ _ _ Hc1) as L1. pose proof (instr_at_le _ _ _ _ _ Hi2) as L2. pose proof (instr_at_le _ _ _ _ _ Hi3) as L3.
-      destruct (call_target ge g st0) as [sn| |] eqn:Ect; [exfalso; exact (Hcallt g pi st0 sn Epi Ect) | | exact I].
-      destruct (operands (evals f0 ge) args st0) as [vs s1|hc hs|u] eqn:Eo; cbn [bind rcase]; [| |exact I].
-      2:{ exfalso. unfold operands in Eo. apply bind_halt in Eo. destruct Eo as [Eo|(L & s1 & _ & Eo)].
-          - refine (evals_no_halt ge args _ f0 st0 hc hs Eo). intros e0 Hin. exact (pure_no_halt ge e0 (cargs_pure args 1 n _ Ec e0 Hin)).
-          - destruct (conflicts (map snd L)); discriminate. }
-      apply operands_ret in Eo. destruct Eo as (L & Eo & ->).
-      destruct (run_args args 1 n c n1 f0 st0 L s1 m Ec Eo HR0 ltac:(lia) ltac:(lia)) as [Hss Hrun].
-      destruct (Hrun pos p1 a b inp Hc1 Hp ltac:(lia)) as (a1 & b1 & m1 & T1 & HR1 & Hk1 & Hst).
-      pose proof (Rel_same _ _ _ Hss HR1) as HR1'.
-      assert (Hlen : List.length (map fst L) = List.length args).
-      { clear - Eo. revert f0 st0 L s1 Eo. induction args as [|e r IHa]; intros f0 st0 L s1 Eo.
-        - destruct (evals_nil _ _ _ _ _ Eo) as [-> _]. reflexivity.
-        - destruct (evals_cons _ _ _ _ _ _ _ Eo) as (f1 & v & sl & L' & -> & _ & Er & ->). cbn [map List.length]. f_equal. eapply IHa. exact Er. }
-      (* LDAP link; BR entry *)
-      pose proof (exec_ldap Cm lab m1 p1 p2 n1 a1 b1 inp Hi2 (proj1 HR1) ltac:(lia) ltac:(lia)) as T2. rewrite Ll in T2.
-      pose proof (exec_br Cm lab m1 p2 nxt (pf_entry pi) nxt b1 inp Hi3 (proj1 HR1) Hn (Hentry g pi Epi)) as T3.
-      assert (Hf1 : frame_only m m1).
-      { intros x Hx Hns _. apply Hk1; [exact Hx | intros Ht; apply Hns; left; exact Ht|].
-        intros Hr. apply Hns. right. left. unfold O. lia. }
-      pose proof (Hcall f0 ltac:(lia) g pi (map fst L) s1 m1 nxt b1 inp Epi Eisf HR1' Hst ltac:(rewrite Hlen; lia) ltac:(lia)) as Hcs1.
-      apply (result_ok_start st0 s1); [exact Hss|].
-      eapply result_ok_after_taus; [eapply (taus_trans inp _ _ _ T1 (taus_trans inp _ _ _ T2 T3)) | exact Hf1|].
-      destruct (invoke (exec f0 ge) ge false g (map fst L) s1) as [rv st2|hc st2|u]; cbn [bind rcase result_ok]; [| exact Hcs1 | exact I].
-      destruct Hcs1 as (o & a2 & b2 & m2 & R2 & HR2 & P2 & F2).
+      destruct (call_is_proc g pi st0 m Epi HR0) as [-> | ->]; [|exact I].
+      rewrite <- Hko in Ec, Eog.
+      pose proof (run_call (S f0) Hcall g pi args n c n1 f0 st0 m pos nxt a b inp ltac:(lia) Epi ltac:(lia) Ec HR0 Hc Hp Hn) as R.
+      rewrite Eisf in R.
+      destruct (operands (evals f0 ge) args st0) as [vs s1|hc hs|u]; cbn [bind rcase] in *; [| exact R | exact I].
+      destruct (invoke (exec f0 ge) ge false g vs s1) as [rv st2|hc st2|u]; cbn [bind rcase result_ok ret_ok] in *; [| exact R | exact I].
+      destruct R as (o & a2 & b2 & m2 & R2 & HR2 & P2 & F2 & _).
       exists o, a2, b2, m2. exact (conj R2 (conj HR2 (conj P2 F2))).
     - (* system calls as statements *)
       destruct sn as [|sp1|sp1]; [|destruct sp1; try discriminate|discriminate].
@@ -974,6 +1091,6 @@ Proof.
   apply stmt_correct_calls; try assumption.
   - intros a [].
   - intros p pi Hp. discriminate Hp.
-  - intros p pi st n Hp. discriminate Hp.
+  - intros p pi Hp. discriminate Hp.
   - intros f' _ p pi vs st m link b inp Hp. discriminate Hp.
 Qed.
